@@ -821,6 +821,28 @@ class Exec:
             out.append((s, self.getattr(o, node.attr, s)))
         return out
 
+    _ASSIGNED = {}
+
+    def _assigned_somewhere(self, cls, name):
+        if not isinstance(cls, type):
+            return False
+        key = (cls.__module__, cls.__qualname__)
+        if key not in Exec._ASSIGNED:
+            names = set()
+            from .core import source
+            for k in cls.__mro__:
+                node = source().get('%s.%s' % (k.__module__, k.__qualname__))
+                if node is None:
+                    continue
+                for n in ast.walk(node):
+                    if isinstance(n, (ast.Assign, ast.AugAssign, ast.AnnAssign)):
+                        for t in (n.targets if isinstance(n, ast.Assign) else [n.target]):
+                            for a in ast.walk(t):
+                                if isinstance(a, ast.Attribute) and isinstance(a.value, ast.Name) and a.value.id == 'self':
+                                    names.add(a.attr)
+            Exec._ASSIGNED[key] = names
+        return name in Exec._ASSIGNED[key]
+
     def getattr(self, o, name, st):
         if o is None:
             raise PyExc('AttributeError', 'None.' + name)
@@ -841,6 +863,10 @@ class Exec:
                 return r[0][1]
             if m is not None:
                 return m
+            if self._assigned_somewhere(f.get('__class__'), name):
+                # the real object has this attribute (some method of its class assigns self.<name>), the hand-written
+                # model of the object does not: outside the modelled subset, not an AttributeError of the program
+                raise OutsideSubset('attribute %s of %s is not part of the object model' % (name, o.kind))
             raise PyExc('AttributeError', '%s.%s' % (o.kind, name))
         if isinstance(o, Opaque) and isinstance(o.data, dict) and name in (o.data.get('methods') or {}):
             return Func('%s.%s' % (o.name, name), self_val=o, model=o.data['methods'][name])
